@@ -134,6 +134,55 @@ def expect_chunk(chunk, has):
     return None
 
 
+def spec_parse(cps, i, has):
+    """syllable starting at cps[i]: (glyphs as (cp, feature), number of following code points taken in)."""
+    u = cps[i]; n = len(cps)
+    nxt = cps[i + 1] if i + 1 < n else None
+    if is_l(u):
+        if nxt is not None and is_v(nxt):
+            t = cps[i + 2] if i + 2 < n and is_t(cps[i + 2]) else None
+            exp = expect_chunk([u, nxt] + ([t] if t else []), has)
+            return list(zip(exp[0], exp[1])), (2 if t else 1)
+        return [], 0
+    if is_s(u):
+        if nxt is not None and is_t(nxt) and (u - S_BASE) % T_COUNT == 0:
+            exp = expect_chunk([u, nxt], has)
+            if len(exp[0]) != 2:                   # composed or three jamo: the T is taken in
+                return list(zip(exp[0], exp[1])), 1
+        exp = expect_chunk([u], has)
+        if exp[0] == [u] and not has(u):
+            return [], 0                           # neither the syllable nor its jamo: passed through
+        return list(zip(exp[0], exp[1])), 0
+    return [], 0
+
+
+def spec_render(cps, sp, nodc):
+    """the whole text per the property: list of (code point, feature)."""
+    out, pend, i = [], [], 0
+    while i < len(cps):
+        u = cps[i]
+        if is_tone(u):
+            if pend:
+                out += (pend + [(u, 0)]) if sp.zero(u) else ([(u, 0)] + pend)
+            elif sp.has(DOTTED) and not nodc:
+                out += [(DOTTED, 0), (u, 0)] if sp.zero(u) else [(u, 0), (DOTTED, 0)]
+            else:
+                out.append((u, 0))
+            pend = []; i += 1
+            continue
+        out += pend; pend = []
+        syl, k = spec_parse(cps, i, sp.has)
+        if syl:
+            pend = syl; i += 1 + k
+        else:
+            out.append((u, 0)); i += 1
+    return out + pend
+
+
+def text_in_finding_class(cps, has):
+    return any(finding_class(cps[i:i + 2], has) for i in range(len(cps) - 1))
+
+
 def finding_class(chunk, has):
     """the one input class on which the crate is known (by this check) to break the promise."""
     if len(chunk) == 2 and is_s(chunk[0]) and (chunk[0] - S_BASE) % T_COUNT == 0 and is_t(chunk[1]) \
@@ -492,6 +541,82 @@ def run_enumeration(ctx, shim, name, cases, fonts, levels):
     return total
 
 
+EDGES = sorted({e + d for e in [0x1100, 0x1112, 0x115F, 0x1160, 0x1161, 0x1175, 0x11A7, 0x11A8, 0x11C2, 0x11FF, 0xA960,
+                                 0xA97C, 0xD7B0, 0xD7C6, 0xD7CB, 0xD7FB, 0xAC00, 0xD7A3, 0x302E, 0x302F]
+                for d in (-1, 0, 1)} | {0xAC1C, 0xAC1B, 0xAC01, 0xD788})
+HEADS = [0x1100, 0x1112, 0x1113, 0x115F, 0xA960, 0xA97C, 0xAC00, 0xAC01, 0xAC1C, 0xD788, 0xD7A3, 0x41]
+
+
+# other combining marks: after preprocessing, shape() sorts mark runs by combining class (normalizer round 2, also in
+# mode NONE), and an inserted dotted circle carries the tone mark's class — not this property's business
+OTHER_MARKS = {0x0301, 0x302D}
+
+
+def whole_text_search(ctx, shim, name, texts, fonts, levels=(0,)):
+    """arbitrary texts: (code point, feature) sequence through the hook and glyph sequence through shape()
+    against the python rendering of the property (`spec_render`)."""
+    specs = {f: Spec(FONTS[f]) for f in fonts}
+    reg = [f"hangul font {f} {FONTS[f]}" for f in fonts]
+    groups, metas = [], []
+    per = 500
+    for k in range(0, len(texts), per):
+        lines = list(reg); m = []
+        for cps, nodc in texts[k:k + per]:
+            cls = list(range(len(cps)))
+            for f in fonts:
+                for level in levels:
+                    lines.append(pre_line(level, nodc, FONTS[f], cps, cls)); m.append((f, cps, nodc, "hook"))
+                    if not any(c in OTHER_MARKS for c in cps):
+                        lines.append(shape_line(f, level, 16 if nodc else 0, cps, cls)); m.append((f, cps, nodc, "shape()"))
+        groups.append(lines); metas.append(m)
+    outs = vlib.run_groups(shim, groups, timeout=900)
+    reported = ctx.__dict__.setdefault("_c12_reported", set())
+    total = 0; dist = {}
+    for lines, m, o in zip(groups, metas, outs):
+        for ln, (f, cps, nodc, via), out in zip(lines[len(reg):], m, o[len(reg):]):
+            total += 1
+            sp = specs[f]
+            want = spec_render(cps, sp, nodc)
+            k = "changed" if [c for c, _ in want] != cps or any(t for _, t in want) else "unchanged"
+            dist[k] = dist.get(k, 0) + 1
+            bad = None
+            if via == "hook":
+                got = parse_pre(out)
+                if got is None: bad = f"reply {out[:80]}"
+                elif [(c, t) for c, _, t in got] != want:
+                    bad = f"(code point, feature) {[(hex(c), t) for c, _, t in got]} expected {[(hex(c), t) for c, t in want]}"
+            else:
+                got = parse_shape(out)
+                if got is None: bad = f"reply {out[:80]}"
+                elif [g for g, _ in got] != [sp.gid(c) for c, _ in want]:
+                    bad = f"glyphs {[g for g, _ in got]} expected {[sp.gid(c) for c, _ in want]} (= {fmt([c for c, _ in want])})"
+            if bad:
+                fnd = "hangul-LV-T-without-LV-glyph" if text_in_finding_class(cps, sp.has) else None
+                kk = "violating" + (":" + fnd if fnd else "")
+                dist[kk] = dist.get(kk, 0) + 1
+                key2 = fnd if fnd else (name, f, via)
+                if key2 in reported: continue
+                reported.add(key2)
+                rp = {"stage": "search", "stream": name, "font": f, "font_spec": FONTS[f], "via": via, "request": ln,
+                      "register": f"hangul font {f} {FONTS[f]}", "observed": out, "text": fmt(cps)}
+                if fnd: rp["finding"] = fnd
+                ctx.violation(f"text {fmt(cps)} on font '{f}' via {via}: {bad}", rp)
+    ctx.note_search(name, total, total, distribution=dist,
+                    rule="whole texts (range-edge code points after syllable heads; random jamo/syllable/tone strings) "
+                         "through the hook (code points + features) and through shape() (glyph ids) against "
+                         "spec_render, the python rendering of the property; 'changed' = the shaper had to act")
+
+
+def edge_texts():
+    out = []
+    for h in HEADS:
+        for a in EDGES:
+            out.append(([h, a], 0))
+            for b in EDGES:
+                out.append(([h, a, b], 0))
+    return out
+
+
 def tone_search(ctx, shim, r, n):
     """tone marks after valid syllables / alone, zero-width or spacing, with and without dotted circle."""
     lines, meta = [], []
@@ -592,6 +717,20 @@ def run(ctx):
     run_enumeration(ctx, shim, "old-hangul", old_cases(ctx.rng("old"), ctx.budget(300, 20000)),
                     ["all", "nosyl", "mix3"], [0] if ctx.quick else [0, 1, 2])
     tone_search(ctx, shim, ctx.rng("tone"), ctx.budget(40, 1500))
+    et = edge_texts()
+    if ctx.quick:
+        et = [t for k, t in enumerate(et) if pick(k, 4, ctx.seed % 4) or len(t[0]) == 2]
+    whole_text_search(ctx, shim, "range-edges", et, ["all", "nosyl"] if ctx.quick else ["all", "nosyl", "mix3", "all-zt"])
+    rr = ctx.rng("texts")
+    rt = [(rand_text(rr), 1 if rr.chance(1, 6) else 0) for _ in range(ctx.budget(4000, 120000))]
+    whole_text_search(ctx, shim, "random-texts", rt, ["all", "nosyl", "mix3", "all-zt", "nosyl-zt", "all-nodc"],
+                      levels=(0,) if ctx.quick else (0, 1, 2))
+    if ctx.broken and any(v[2] for v in ctx.violations):
+        # vlib.finish only reports a broken proof / correspondence when no failing input was found at all;
+        # a standing finding must not hide it
+        names = [str(b.get("module") or b.get("stream")) for b in ctx.broken]
+        ctx.violation("proof or correspondence no longer checks: " + ", ".join(names),
+                      {"stage": "prove/correspond", "broken": ctx.broken}, found_input=False)
 
 
 def replay(ctx, rp):
